@@ -426,7 +426,7 @@ sds_2byte_read (SF_PRIVATE *psf, SDS_PRIVATE *psds)
 	psds->read_block ++ ;
 	psds->read_count = 0 ;
 
-	if (psds->read_block * psds->samplesperblock > psds->frames)
+	if ((psds->read_block - 1) * psds->samplesperblock >= psds->frames)
 	{	memset (psds->read_samples, 0, psds->samplesperblock * sizeof (int)) ;
 		return 1 ;
 		} ;
@@ -470,7 +470,7 @@ sds_3byte_read (SF_PRIVATE *psf, SDS_PRIVATE *psds)
 	psds->read_block ++ ;
 	psds->read_count = 0 ;
 
-	if (psds->read_block * psds->samplesperblock > psds->frames)
+	if ((psds->read_block - 1) * psds->samplesperblock >= psds->frames)
 	{	memset (psds->read_samples, 0, psds->samplesperblock * sizeof (int)) ;
 		return 1 ;
 		} ;
@@ -514,7 +514,7 @@ sds_4byte_read (SF_PRIVATE *psf, SDS_PRIVATE *psds)
 	psds->read_block ++ ;
 	psds->read_count = 0 ;
 
-	if (psds->read_block * psds->samplesperblock > psds->frames)
+	if ((psds->read_block - 1) * psds->samplesperblock >= psds->frames)
 	{	memset (psds->read_samples, 0, psds->samplesperblock * sizeof (int)) ;
 		return 1 ;
 		} ;
